@@ -16,7 +16,7 @@ import io
 from pathlib import Path, PurePath
 
 from ..common import REPO
-from ..lean import lean_string
+from ..keyenc import k
 
 GEN_NAME = "CliTables"
 SRC = REPO / "src" / "datamodel_code_generator"
@@ -242,79 +242,94 @@ def main_returns() -> list[tuple[str, bool, int]]:
 def _pairs(ps: list[tuple[str, str]]) -> str:
     if not ps:
         return "[]"
-    return "[" + ",\n   ".join(f"({lean_string(a)}, {lean_string(b)})" for a, b in ps) + "]"
+    return "[" + ",\n   ".join(f"({k(a)}, {k(b)})" for a, b in ps) + "]"
 
 
 def _strs(xs: list[str]) -> str:
-    return "[" + ", ".join(lean_string(x) for x in xs) + "]"
+    return "[" + ", ".join(k(x) for x in xs) + "]"
+
+
+def _attr_form(ps: list[tuple[str, str]]) -> str:
+    """(keyword, base, attribute) for every expression of the form `<name>.<attribute>`"""
+    rows = []
+    for kw, e in ps:
+        try:
+            node = ast.parse(e, mode="eval").body
+        except SyntaxError:
+            continue
+        if isinstance(node, ast.Attribute) and isinstance(node.value, ast.Name):
+            rows.append(f"({k(kw)}, {k(node.value.id)}, {k(node.attr)})")
+    return "[" + ",\n   ".join(rows) + "]"
 
 
 def generate() -> str:
-    out = ["namespace Dcg.Gen.CliTables", ""]
+    out = ["import Dcg.Model.Key", "namespace Dcg.Gen.CliTables", "", "/-! names and canonical values are `k!` keys (Dcg/Model/Key.lean) -/", ""]
     out.append(
-        "structure Action where\n  dest : String\n  kind : String\n  defaultIsNone : Bool\n  default : String\n"
-        "  choices : List String\n  nargs : String\n  flags : List String\n  deriving Repr, DecidableEq\n"
+        "structure Action where\n  dest : Nat\n  kind : Nat\n  defaultIsNone : Bool\n  default : Nat\n"
+        "  choices : List Nat\n  nargs : Nat\n  flags : List Nat\n  deriving Repr, DecidableEq\n"
     )
     rows = []
     for a in actions():
         rows.append(
             "{ dest := %s, kind := %s, defaultIsNone := %s, default := %s, choices := %s, nargs := %s, flags := %s }"
             % (
-                lean_string(a["dest"]),
-                lean_string(a["kind"]),
+                k(a["dest"]),
+                k(a["kind"]),
                 "true" if a["default_is_none"] else "false",
-                lean_string(a["default"]),
+                k(a["default"]),
                 _strs(a["choices"]),
-                lean_string(a["nargs"]),
+                k(a["nargs"]),
                 _strs(a["flags"]),
             )
         )
     out.append("/-- `arg_parser._actions` at import time -/\ndef actions : List Action :=\n  [" + ",\n   ".join(rows) + "]\n")
     out.append(
         "/-- keyword arguments the module-level `namespace = Namespace(...)` is created with -/\n"
-        f"def namespaceInit : List (String × String) :=\n  {_pairs(namespace_init())}\n"
+        f"def namespaceInit : List (Nat × Nat) :=\n  {_pairs(namespace_init())}\n"
     )
-    out.append(f"/-- `Config` fields with canonical default -/\ndef configFields : List (String × String) :=\n  {_pairs(config_fields())}\n")
+    out.append(f"/-- `Config` fields with canonical default -/\ndef configFields : List (Nat × Nat) :=\n  {_pairs(config_fields())}\n")
     out.append(
-        f"/-- parameters of `generate()` with canonical default -/\ndef generateParams : List (String × String) :=\n  {_pairs(generate_params())}\n"
+        f"/-- parameters of `generate()` with canonical default -/\ndef generateParams : List (Nat × Nat) :=\n  {_pairs(generate_params())}\n"
     )
     pp = parser_params()
-    rows = [f"({lean_string(lbl)},\n   {_pairs(ps)})" for lbl, ps in pp]
+    rows = [f"({k(lbl)},\n   {_pairs(ps)})" for lbl, ps in pp]
     out.append(
         "/-- `__init__` parameters (with canonical default) of the base parser and its three subclasses -/\n"
-        "def parserParams : List (String × List (String × String)) :=\n  [" + ",\n   ".join(rows) + "]\n"
+        "def parserParams : List (Nat × List (Nat × Nat)) :=\n  [" + ",\n   ".join(rows) + "]\n"
     )
     kws, pos, n = main_generate_call()
     out.append(
         "/-- keyword → expression text of the single `generate(...)` call in `main()` -/\n"
-        f"def mainGenerateCall : List (String × String) :=\n  {_pairs(kws)}\n"
+        f"def mainGenerateCall : List (Nat × Nat) :=\n  {_pairs(kws)}\n"
+        "/-- the same call, for expressions of the form `<name>.<attribute>`: (keyword, name, attribute) -/\n"
+        f"def mainGenerateCallAttr : List (Nat × Nat × Nat) :=\n  {_attr_form(kws)}\n"
         f"def mainGenerateCallPositional : Bool := {'true' if pos else 'false'}\n"
         f"def mainGenerateCallCount : Nat := {n}\n"
     )
     kws, pos, n, extra = parser_call()
     out.append(
         "/-- keyword → expression text of the `parser_class(...)` call in `generate()` (`**` = star-star argument) -/\n"
-        f"def parserCall : List (String × String) :=\n  {_pairs(kws)}\n"
+        f"def parserCall : List (Nat × Nat) :=\n  {_pairs(kws)}\n"
         f"def parserCallPositional : Bool := {'true' if pos else 'false'}\n"
         f"def parserCallCount : Nat := {n}\n"
         "/-- `kwargs[\"k\"] = e` assignments in `generate()` feeding the `**kwargs` of that call -/\n"
-        f"def parserCallKwargs : List (String × String) :=\n  {_pairs(extra)}\n"
+        f"def parserCallKwargs : List (Nat × Nat) :=\n  {_pairs(extra)}\n"
     )
-    rows = [f"({lean_string(lbl)},\n   {_pairs(ps)})" for lbl, ps in super_init_calls()]
+    rows = [f"({k(lbl)},\n   {_pairs(ps)})" for lbl, ps in super_init_calls()]
     out.append(
         "/-- keyword → expression text of `super().__init__(...)` in each parser subclass -/\n"
-        "def superInitCalls : List (String × List (String × String)) :=\n  [" + ",\n   ".join(rows) + "]\n"
+        "def superInitCalls : List (Nat × List (Nat × Nat)) :=\n  [" + ",\n   ".join(rows) + "]\n"
     )
     rets = main_returns()
-    rows = [f"({lean_string(e)}, {'true' if p else 'false'})" for e, p, _ in rets]
+    rows = [f"({k(e)}, {'true' if p else 'false'})" for e, p, _ in rets]
     out.append(
         "/-- every `return` / `sys.exit` statement of `main()` in source order: (expression, a\n"
         "`print(..., file=sys.stderr)` precedes it in the same block) -/\n"
-        "def mainReturns : List (String × Bool) :=\n  [" + ",\n   ".join(rows) + "]\n"
+        "def mainReturns : List (Nat × Bool) :=\n  [" + ",\n   ".join(rows) + "]\n"
     )
     out.append(
         "/-- target versions on which `PythonVersion.has_kw_only_dataclass` holds (used by a Config validator) -/\n"
-        f"def kwOnlyTargets : List String := {_strs(kw_only_targets())}\n"
+        f"def kwOnlyTargets : List Nat := {_strs(kw_only_targets())}\n"
     )
     out.append("end Dcg.Gen.CliTables")
     return "\n".join(out) + "\n"
